@@ -85,3 +85,82 @@ def obs_shape_obligations(res, tree, rule: str) -> int:
                             f"value {fmt(s)}, spec {fmt(ss)}" + (f" -- {dd}" if dd else ""))
                     n += 1
     return n
+
+
+def action_space_dims(vfg, asp):
+    """Shape a mask must have for the action space declared by `action_spec` (None when not decidable)."""
+    from ..normal import ext_name, strip_cast
+    from ..shapes import dim_of
+    info = c01.spec_args(asp)
+    if not info:
+        return None
+    kind, a = info
+    if kind == "DiscreteArray":
+        d = dim_of(a.get("num_values"), vfg) if a.get("num_values") is not None else None
+        return (d,) if d else None
+    if kind != "MultiDiscreteArray":
+        return None
+    nv = a.get("num_values")
+    if nv is None:
+        return None
+    nv = strip_cast(nv) if ext_name(nv) not in ("jax.numpy.full",) else nv
+    if ext_name(nv) == "jax.numpy.full" and len(nv.args[1]) >= 2:
+        k = dims_from_shape_arg(nv.args[1][0], vfg)
+        n = dim_of(nv.args[1][1], vfg)
+        if k is not None and len(k) == 1 and n is not None:
+            return (k[0], n)
+        return None
+    if nv.kind in ("list", "tuple"):
+        dims = [dim_of(x, vfg) for x in nv.args[0]]
+        return tuple(dims) if all(d is not None for d in dims) else None
+    if nv.kind == "bin" and nv.args[0] == "*":
+        for lst, cnt in ((nv.args[1], nv.args[2]), (nv.args[2], nv.args[1])):
+            lst = strip_cast(lst)
+            if lst.kind in ("list", "tuple") and len(lst.args[0]) == 1:
+                k, n = dim_of(cnt, vfg), dim_of(lst.args[0][0], vfg)
+                if k is not None and n is not None:
+                    return (k, n)
+    return None
+
+
+def mask_action_obligations(res, tree, rule: str) -> int:
+    """The declared (and, where inferable, the emitted) action mask has one entry per action of action_spec."""
+    n = 0
+    for ea in analyses(tree):
+        vfg = ea.vfg
+        want = action_space_dims(vfg, vfg.mk_attr(ea.self_t, "action_spec"))
+        if want is None:
+            continue
+        spec = vfg.mk_attr(ea.self_t, "observation_spec")
+        f = tree.find_method(ea.cls, "observation_spec")
+        site = f.loc() if f else ea.cls.loc()
+        for p, leaf in c01.spec_paths(vfg, spec):
+            if not p.endswith("action_mask"):
+                continue
+            info = c01.spec_args(leaf)
+            if not info or info[0] not in ("BoundedArray", "Array"):
+                continue
+            ss = dims_from_shape_arg(info[1].get("shape"), vfg)
+            if ss is None:
+                continue
+            dd = definitely_different(ss, want)
+            res.add(rule, site, short(ea.cls.qual) + ".observation_spec", f"action_mask spec has one entry per action of action_spec", dd is None,
+                    f"mask spec {fmt(ss)}, action space {fmt(want)}" + (f" -- {dd}" if dd else ""))
+            n += 1
+        sfields, sh0, sh, rs = env_shapes(ea)
+        for which, ts, S in (("reset", ea.reset_ts, sh0), ("step", ea.step_ts, sh)):
+            s2, f2 = env_site(ea, which)
+            for o in observation_leaves(ea, ts):
+                if o.kind != "construct":
+                    continue
+                m = dict(flat_fields(vfg, o)).get("action_mask")
+                if m is None:
+                    continue
+                sm = S.of(m)
+                if sm is None:
+                    continue
+                dd = definitely_different(sm, want)
+                res.add(rule, s2, f2, "emitted action_mask has one entry per action of action_spec", dd is None,
+                        f"mask {fmt(sm)}, action space {fmt(want)}" + (f" -- {dd}" if dd else ""))
+                n += 1
+    return n
